@@ -123,7 +123,8 @@ class FilReader(Filterbank):
                 "nchans": nchans,
             },
         )
-        return FilterbankBlock(data_block, new_header)
+        # The samples are as dedispersed as the file says they are
+        return FilterbankBlock(data_block, new_header, dm=self.header.dm)
 
     def read_dedisp_block(self, start: int, nsamps: int, dm: float) -> FilterbankBlock:
         delays = self.header.get_dmdelays(dm)
@@ -317,7 +318,8 @@ class PFITSReader(Filterbank):
                 "nchans": nchans,
             },
         )
-        return FilterbankBlock(data_block, new_header)
+        # The samples are as dedispersed as the file says they are
+        return FilterbankBlock(data_block, new_header, dm=self.header.dm)
 
     def read_dedisp_block(self, start: int, nsamps: int, dm: float) -> FilterbankBlock:
         msg = "Not implemented for PFITSReader"
